@@ -74,7 +74,9 @@ RuntimeError::RuntimeError(const Token &token, const Context &context, const std
 
     const Context *ctx = context.getParent();
     while (ctx != nullptr) {
-        os << "\n" << ctx->getName() << ", line " << ctx->switchToken->line << ", column " << ctx->switchToken->column;
+        os << "\n" << ctx->getName();
+        if (ctx->switchToken != nullptr)
+            os << ", line " << ctx->switchToken->line << ", column " << ctx->switchToken->column;
         Context *parent = ctx->getParent();
         ctx = parent;
     }
